@@ -6,6 +6,7 @@ import (
 	"encoding/json"
 	"fmt"
 	"os"
+	"regexp"
 	"strings"
 	"time"
 
@@ -43,8 +44,12 @@ type c06Job struct {
 	// Sib adds a second integration ig0 on the same source (same shape, table t0, same start, NO stop) that is stepped
 	// before every step of the integration under test and shares its client: "free" = unrelated; "ref" = the integration
 	// under test carries a filter reference to ig0's column f (so it also waits for ig0's position)
-	Sib  string `json:"sib,omitempty"`
-	Tick bool   `json:"tick"` // the environment may also grow the chain right AFTER the node answered an exchange and fire the client's head-poller ticker (the poller refreshes the head cache behind the task's back)
+	Sib string `json:"sib,omitempty"`
+	// Spell is the way start and stop are written in the configuration: "" JSON number, "str" quoted decimal string,
+	// "zstr" quoted decimal string padded with zeros to 7 digits, "env"/"zenv" a "$NAME" reference to an environment
+	// variable holding the plain / the zero-padded decimal string. The configured range is the decimal value.
+	Spell string `json:"spell,omitempty"`
+	Tick  bool   `json:"tick"` // the environment may also grow the chain right AFTER the node answered an exchange and fire the client's head-poller ticker (the poller refreshes the head cache behind the task's back)
 }
 
 type c06Case struct {
@@ -60,7 +65,7 @@ func init() {
 		ID:        "C06",
 		Level:     "model_checking",
 		Technique: "stateless model checking of the real pipeline (controlled scheduler over instrumented code, fake Postgres, simulated node): every (start, stop) pair relative to the head x batch x concurrency x prior recorded position, all interleavings of task steps with head growth up to a preemption bound, every placement of a process restart; range oracle evaluated on every commit",
-		Rule: "jobs = head h in 1..5 (every block produces rows) x start in 0..h+2 x stop in {unset} u 1..h+2 x batch in 1..3 x conc in 1..2 x prior position in {none, inside the range (produced by really running the task on a shorter chain), at stop} x shape {L1 headers+logs, T1 blocks}, plus, for every range with a start and a stop and batch >= 2 (conc 1), the same job with a SECOND integration on the source that is stepped before every step of the one under test: unrelated, or referenced by it through a filter reference (one client and block cache, dependency limit) (quick: the shape alternates with batch+conc and one inside position, the middle one; thorough: both shapes, every inside position); " +
+		Rule: "jobs = head h in 1..5 (every block produces rows) x start in 0..h+2 x stop in {unset} u 1..h+2 x batch in 1..3 x conc in 1..2 x prior position in {none, inside the range (produced by really running the task on a shorter chain), at stop} x shape {L1 headers+logs, T1 blocks}, plus start/stop written as JSON number, quoted decimal, zero-padded quoted decimal, $ENV reference to a plain and to a zero-padded value (h=8, start 8..10, stop unset,9..11), plus, for every range with a start and a stop and batch >= 2 (conc 1), the same job with a SECOND integration on the source that is stepped before every step of the one under test: unrelated, or referenced by it through a filter reference (one client and block cache, dependency limit) (quick: the shape alternates with batch+conc and one inside position, the middle one; thorough: both shapes, every inside position); " +
 			"per job: the environment grows the chain to h+3 in two operations; by default it acts whenever the task idles (one operation, or both: enumerated); deviations enumerated exhaustively: growth operations placed before any step or at any JSON-RPC exchange of the task (the preemption), and process restarts (tasks discarded, real loadTasks again) before any step; on jobs without a recorded position whose start is unset or beyond the head a placed growth may also happen right after the node answered the exchange, followed by a tick of the client's head poller (the poller refreshes the head cache between two reads of the task). quick: <= 1 placed growth, <= 1 restart, both in one execution only when h <= 2 or start is unset; thorough: <= 2 of each, 2 in total (h = 5: one of each). " +
 			"An execution is non-trivial when rows were written or a restart happened; distinct = distinct (job, choice sequence).",
 		Assumptions: []string{
@@ -143,7 +148,46 @@ func c06Jobs(thorough bool) []c06Job {
 			}
 		}
 	}
+	// configuration spellings of start/stop (block numbers >= 8, so that a zero-padded number is not also valid octal)
+	for _, start := range []uint64{8, 9, 10} {
+		for _, stop := range []uint64{0, 9, 10, 11} {
+			for _, sp := range []string{"", "str", "zstr", "env", "zenv"} {
+				jobs = append(jobs, c06Job{Shape: "L1", H: 8, Start: start, Stop: stop, Batch: 2, Conc: 1, Prior: "none", Grow: 2, Spell: sp, Tick: start >= 9})
+			}
+		}
+	}
 	return jobs
+}
+
+// c06ConfRejected: a spelling of start/stop that the configuration format accepts was rejected.
+type c06ConfRejected struct{ spell, detail string }
+
+func (e *c06ConfRejected) Error() string { return "configuration rejected: " + e.detail }
+
+var (
+	c06RangeRe  = regexp.MustCompile(`"(start|stop)":([0-9]+)`)
+	c06RangeRe2 = regexp.MustCompile(`"(start|stop)":"[^"]*"`)
+)
+
+// c06Spell rewrites the start/stop numbers of a rendered configuration in the job's spelling and sets the
+// environment variables the "$NAME" spellings refer to.
+func c06Spell(j c06Job, conf string) string {
+	if j.Spell == "" {
+		return conf
+	}
+	return c06RangeRe.ReplaceAllStringFunc(conf, func(m string) string {
+		sm := c06RangeRe.FindStringSubmatch(m)
+		dec := sm[2]
+		if j.Spell == "zstr" || j.Spell == "zenv" {
+			dec = fmt.Sprintf("%07s", dec)
+		}
+		if j.Spell == "env" || j.Spell == "zenv" {
+			name := "C06_" + strings.ToUpper(sm[1])
+			os.Setenv(name, dec)
+			return fmt.Sprintf(`"%s":"$%s"`, sm[1], name)
+		}
+		return fmt.Sprintf(`"%s":"%s"`, sm[1], dec)
+	})
 }
 
 // c06PriorFailed: the run that should have produced the prior recorded position did not (a
@@ -178,8 +222,11 @@ func c06Prepare(j c06Job) (*c06Prep, error) {
 			d.Inputs[0].Op, d.Inputs[0].Ref = "contains", &world.Ref{Integration: "ig0", Column: "f"}
 		}
 	}
-	p.conf = world.ConfJSON([]world.Source{{Name: "src1", ChainID: 7, URL: "http://node1", Batch: j.Batch, Conc: j.Conc}}, decls)
+	p.conf = c06Spell(j, world.ConfJSON([]world.Source{{Name: "src1", ChainID: 7, URL: "http://node1", Batch: j.Batch, Conc: j.Conc}}, decls))
 	conf, err := world.ParseConf(p.conf)
+	if err != nil && j.Spell != "" {
+		return nil, &c06ConfRejected{j.Spell, fmt.Sprintf("start=%d stop=%d written as %v: %v", j.Start, j.Stop, c06RangeRe2.FindAllString(p.conf, -1), err)}
+	}
 	if err != nil {
 		return nil, err
 	}
@@ -284,6 +331,9 @@ func c06Exec(j c06Job, p *c06Prep, ch vrt.Chooser, states *vrt.StateSet, trace b
 		res.vios = append(res.vios, fw.Violation{Property: "C06", Class: class, Key: key, Detail: detail})
 	}
 	tag := j.Shape
+	if j.Spell != "" {
+		tag += ":spelled-" + j.Spell
+	}
 	if j.Sib != "" {
 		tag += ":sibling-" + j.Sib
 	}
@@ -422,6 +472,9 @@ func c06Exec(j c06Job, p *c06Prep, ch vrt.Chooser, states *vrt.StateSet, trace b
 		return p.init.Head().Num
 	}
 	w.Run(func() {
+		if j.Spell == "env" || j.Spell == "zenv" { // (the environment variables of the "$NAME" spellings belong to this job)
+			c06Spell(j, fmt.Sprintf(`"start":%d "stop":%d`, j.Start, j.Stop))
+		}
 		conf, err := world.ParseConf(p.conf)
 		if err != nil {
 			w.HarnessErr = err.Error()
@@ -801,6 +854,12 @@ func c06Run(c *fw.Ctx) {
 			c.Violation("C06", "prior-run", "prior-run:"+pf.what+":"+j.Shape, fmt.Sprintf("job %+v\n%s", j, pf.detail), c06Case{Job: j})
 			continue
 		}
+		if cr, ok := err.(*c06ConfRejected); ok {
+			c.Eval(true)
+			c.Outcome("VIOLATION:config")
+			c.Violation("C06", "config", "config:range-spelling-rejected:"+cr.spell, fmt.Sprintf("job %+v\n%s", j, cr.detail), c06Case{Job: j})
+			continue
+		}
 		if err != nil {
 			c.HarnessError("prepare %+v: %v", j, err)
 			return
@@ -873,6 +932,11 @@ func c06Replay(c *fw.Ctx, raw json.RawMessage) {
 	if pf, ok := err.(*c06PriorFailed); ok {
 		c.Eval(true)
 		c.Violation("C06", "prior-run", "prior-run:"+pf.what+":"+k.Job.Shape, pf.detail, k)
+		return
+	}
+	if cr, ok := err.(*c06ConfRejected); ok {
+		c.Eval(true)
+		c.Violation("C06", "config", "config:range-spelling-rejected:"+cr.spell, cr.detail, k)
 		return
 	}
 	if err != nil {
